@@ -75,15 +75,24 @@ package metrics
 //@             && mc.metrics.BackendMetrics[k].IsHealthy == old(mc.metrics.BackendMetrics[k].IsHealthy)
 //@   modifies mapof(mc.metrics.BackendMetrics), BackendMetrics.IsHealthy, BackendMetrics.LastHealthCheck
 
+// C13 "each backend's active-connection gauge ... returning to zero when idle - under every interleaving": what is
+// published is the gauge as read INSIDE the critical section that publishes it. Publishers are then ordered like
+// their readings; a value read before the lock could be overwritten-by-older when two requests finish together
+// (published 1 on an idle backend until the next request).
+//@ ghost var gaugeReadUnderLock Bool
+//@ func fnvalue:(*MetricsCollector).UpdateBackendConnections:gauge
 //@ func (*MetricsCollector).UpdateBackendConnections
 //@   props C13 C12 C04
+//@   ghost entry :: gaugeReadUnderLock := false
+//@   ghost before gauge :: gaugeReadUnderLock := wlocked(mc.metrics.mutex)
 //@   ensures the_gauge_mirror_leaves_the_health_mirror_alone@C04: forall k string :: {mc.metrics.BackendMetrics[k]} old(has(mc.metrics.BackendMetrics, k)) ==> mc.metrics.BackendMetrics[k].IsHealthy == old(mc.metrics.BackendMetrics[k].IsHealthy)
-//@   requires mcOK(mc) && unlocked(mc.metrics.mutex) && bmCellsOK(mc)
+//@   requires mcOK(mc) && unlocked(mc.metrics.mutex) && bmCellsOK(mc) && gauge != nil
 //@   ensures cells: bmCellsOK(mc)
-//@   ensures gauge: has(mc.metrics.BackendMetrics, backendName) && mc.metrics.BackendMetrics[backendName].ActiveConnections == connections
+//@   ensures the_gauge_is_read_inside_the_critical_section_that_publishes_it: gaugeReadUnderLock
+//@   ensures gauge: has(mc.metrics.BackendMetrics, backendName) && mc.metrics.BackendMetrics[backendName].ActiveConnections == ret(gauge)
 //@   ensures cells_stay: bmKept(mc)
 //@   ensures known_backend_adds_no_cell: old(has(mc.metrics.BackendMetrics, backendName)) ==> len(mc.metrics.BackendMetrics) == old(len(mc.metrics.BackendMetrics))
-//@   modifies mapof(mc.metrics.BackendMetrics), BackendMetrics.ActiveConnections
+//@   modifies mapof(mc.metrics.BackendMetrics), BackendMetrics.ActiveConnections, gaugeReadUnderLock
 //@ pred has_bm(mc *MetricsCollector, name string) := has(mc.metrics.BackendMetrics, name)
 
 // ---- access policies (C12)
